@@ -81,11 +81,13 @@ def run(ctx):
     # producer
     # the nested function of _evaluate_apply that copies the bookkeeping: the one holding the isinstance dispatch with `<dup>.<field> = <orig>.<field>` arms
     cb = None
+    cbs: list = []  # every local function that holds the copy (one shared helper, or the copy written out in both callbacks)
     for q, f in sm.funcs.items():
         if q.startswith("Scheduler._evaluate_apply.") and q.count(".") == 2:
             if any(isinstance(n, ast.If) and any(isinstance(c, ast.Call) and call_name(c) == "isinstance" for c in ast.walk(n.test)) and any(isinstance(b, ast.Assign) and isinstance(b.targets[0], ast.Attribute) and b.targets[0].attr in ("call_hash", "_upstreams") for b in n.body) for n in f.body):
                 cb = f
                 cbq = q
+                cbs.append(f)
     if cb is None:
         raise AnalysisError("dedup bookkeeping copy not found in _evaluate_apply", "Scheduler._evaluate_apply.callback")
     pchain = if_chain(cb)
@@ -135,7 +137,7 @@ def run(ctx):
         f = local_fns.get(fname)
         if f is None or fname in seen:
             return False
-        if f is cb:
+        if any(f is x for x in cbs):
             return True
         return any(isinstance(c.func, ast.Name) and reaches_copy(c.func.id, seen + (fname,)) for c in calls_in(f))
 
